@@ -4,13 +4,14 @@
 use crate::gen::{any_i64, edge_i64};
 use locustdb::verif::engine::operators::verif_export::aggregate::{CheckedAggregator, SumI64};
 use locustdb::verif::engine::operators::verif_export::binary_operator::{
-    CheckedBinaryOp, CheckedBinaryOperator, NullableCheckedBinaryOperator,
+    CheckedBinaryOp, CheckedBinaryOperator, CheckedBinarySVOperator, CheckedBinaryVSOperator, NullableCheckedBinaryOperator,
+    NullableCheckedBinarySVOperator, NullableCheckedBinaryVSOperator,
 };
 use locustdb::verif::engine::operators::verif_export::merge_aggregate::verif_combine_i64;
 use locustdb::verif::engine::operators::verif_export::numeric_operators::{
     Addition, Division, Modulo, Multiplication, Subtraction,
 };
-use locustdb::verif::engine::{Aggregator, BufferRef, Nullable, Scratchpad, VecOperator};
+use locustdb::verif::engine::{Aggregator, BufferRef, Nullable, Scalar, Scratchpad, VecOperator};
 use locustdb::QueryError;
 use lvharness::rng::Rng;
 use lvharness::suite::{Case, Outcome, Suite};
@@ -155,6 +156,80 @@ fn real_vec(op: &str, l: &Vec<i64>, r: &Vec<i64>, present: Option<&Vec<bool>>) -
     }
 }
 
+fn present_bytes(bits: &[bool]) -> Vec<u8> {
+    let mut bytes = vec![0u8; bits.len().div_ceil(8)];
+    for (i, b) in bits.iter().enumerate() {
+        if *b {
+            bytes[i / 8] |= 1 << (i % 8);
+        }
+    }
+    bytes
+}
+
+/// the scalar forms: `form` = "sv" (constant on the LEFT, vector on the right) or "vs"
+macro_rules! run_scalar_op {
+    ($opty:ty, $form:expr, $scalar:expr, $v:expr, $present:expr) => {{
+        let n = $v.len();
+        let mut sp = Scratchpad::new(4, HashMap::new());
+        sp.set(bref::<i64>(0), $v.clone());
+        sp.set_const(bref::<Scalar<i64>>(1), $scalar);
+        let res = match ($form, $present) {
+            ("sv", None) => {
+                let mut op = CheckedBinarySVOperator::<i64, i64, i64, $opty> { lhs: bref(1), rhs: bref(0), output: bref(2), op: PhantomData };
+                op.init(n, n.max(1), &mut sp);
+                op.execute(false, &mut sp)
+            }
+            ("vs", None) => {
+                let mut op = CheckedBinaryVSOperator::<i64, i64, i64, $opty> { lhs: bref(0), rhs: bref(1), output: bref(2), op: PhantomData };
+                op.init(n, n.max(1), &mut sp);
+                op.execute(false, &mut sp)
+            }
+            ("sv", Some(bits)) => {
+                let bits: &Vec<bool> = bits;
+                sp.set(bref::<u8>(3), present_bytes(bits));
+                let mut op = NullableCheckedBinarySVOperator::<i64, i64, i64, $opty> {
+                    lhs: bref(1),
+                    rhs: bref(0),
+                    present: bref(3),
+                    output: bref::<Nullable<i64>>(2),
+                    op: PhantomData,
+                };
+                op.init(n, n.max(1), &mut sp);
+                op.execute(false, &mut sp)
+            }
+            (_, Some(bits)) => {
+                let bits: &Vec<bool> = bits;
+                sp.set(bref::<u8>(3), present_bytes(bits));
+                let mut op = NullableCheckedBinaryVSOperator::<i64, i64, i64, $opty> {
+                    lhs: bref(0),
+                    rhs: bref(1),
+                    present: bref(3),
+                    output: bref::<Nullable<i64>>(2),
+                    op: PhantomData,
+                };
+                op.init(n, n.max(1), &mut sp);
+                op.execute(false, &mut sp)
+            }
+            _ => panic!("form"),
+        };
+        match res {
+            Ok(()) => Ok(sp.get(bref::<i64>(2)).to_vec()),
+            Err(e) => Err(e),
+        }
+    }};
+}
+
+fn real_scalar(op: &str, form: &str, scalar: i64, v: &Vec<i64>, present: Option<&Vec<bool>>) -> Result<Vec<i64>, QueryError> {
+    match op {
+        "add" => run_scalar_op!(Addition<i64, i64>, form, scalar, v, present),
+        "sub" => run_scalar_op!(Subtraction<i64, i64>, form, scalar, v, present),
+        "mul" => run_scalar_op!(Multiplication<i64, i64, i64>, form, scalar, v, present),
+        "div" => run_scalar_op!(Division<i64, i64>, form, scalar, v, present),
+        "mod" => run_scalar_op!(Modulo<i64, i64>, form, scalar, v, present),
+        _ => panic!("op"),
+    }
+}
+
 fn agg_of(k: &str) -> Aggregator {
     match k {
         "sum" => Aggregator::SumI64,
@@ -246,43 +321,65 @@ impl Suite for C06Kernel {
                 input: Sx::tagged("op", vec![Sx::a(op), Sx::a(lt), Sx::a(rt), Sx::int(a), Sx::int(b)]),
             });
         }
-        // vector operators with and without a null map
-        for i in 0..(400 * scale) {
+        // vector operators with and without a null map; forms: vector op vector, vector op scalar,
+        // scalar op vector (`100 / col`: the NullableChecked SV operator must ignore absent rows, whose
+        // placeholder value 0 would otherwise divide by zero)
+        for i in 0..(600 * scale) {
             let op = OPS[i % 5];
-            let n = r.below(20) as usize;
-            let nullable = r.chance(1, 2);
-            let mut pairs = vec![];
+            let form = ["vv", "sv", "vs"][(i / 5) % 3];
+            let n = if form == "vv" { r.below(20) as usize } else { 1 + r.below(20) as usize };
+            let nullable = r.chance(1, 2) || (form == "sv" && r.chance(1, 2));
+            let mut pairs: Vec<(i64, i64)> = vec![];
             let mut present = vec![];
-            let hot = r.chance(1, 3); // put an overflowing pair somewhere
+            let hot = r.chance(1, 3) || (form == "sv" && (op == "div" || op == "mod") && r.chance(1, 2)); // put an overflowing pair somewhere
             let hot_at = r.below(n.max(1) as u64) as usize;
+            let hot_pair = match op {
+                "add" => (i64::MAX - r.below(3) as i64, 1 + r.below(3) as i64),
+                "sub" => (i64::MIN + r.below(3) as i64, 1 + r.below(3) as i64),
+                "mul" => (1 << 32, 1 << 31),
+                _ => (r.range(-5, 5) + 100 * r.below(2) as i64, 0),
+            };
             for k in 0..n {
                 let (a, b) = if hot && k == hot_at {
-                    match op {
-                        "add" => (i64::MAX - r.below(3) as i64, 1 + r.below(3) as i64),
-                        "sub" => (i64::MIN + r.below(3) as i64, 1 + r.below(3) as i64),
-                        "mul" => (1 << 32, 1 << 31),
-                        "div" => (r.range(-5, 5), 0),
-                        _ => (r.range(-5, 5), 0),
-                    }
+                    hot_pair
                 } else {
                     let b = r.range(-1000, 1000);
-                    (r.range(-1_000_000, 1_000_000), if b == 0 && (op == "div" || op == "mod") { 7 } else { b })
+                    let b = if b == 0 && (op == "div" || op == "mod") { 7 } else { b };
+                    // with a shared (scalar) left operand near the i64 edge only the hot row may overflow
+                    let b = if form == "sv" && hot && (op == "add" || op == "sub") { -b.abs() } else { b };
+                    (r.range(-1_000_000, 1_000_000), b)
                 };
-                pairs.push(Sx::l(vec![Sx::int(a), Sx::int(b)]));
+                pairs.push((a, b));
                 // the hot row is NULL in half of the nullable cases
                 present.push(Sx::boolean(if hot && k == hot_at { r.chance(1, 2) } else { r.chance(3, 4) }));
+            }
+            // the scalar forms share one operand over all rows (the hot row's when there is one)
+            if form != "vv" {
+                let shared = if hot { hot_pair } else { pairs[0] };
+                for p in pairs.iter_mut() {
+                    if form == "sv" {
+                        p.0 = shared.0;
+                    } else {
+                        p.1 = shared.1;
+                    }
+                }
             }
             // a present bitmap may be shorter than the data (trailing absent rows)
             if nullable && r.chance(1, 4) && !present.is_empty() {
                 let keep = r.below(present.len() as u64) as usize;
                 present.truncate(keep);
             }
+            let mut items = vec![
+                Sx::a(op),
+                Sx::l(pairs.iter().map(|(a, b)| Sx::l(vec![Sx::int(a), Sx::int(b)])).collect()),
+                if nullable { Sx::some(Sx::l(present)) } else { Sx::none() },
+            ];
+            if form != "vv" {
+                items.push(Sx::a(form));
+            }
             cases.push(Case {
-                class: format!("vec:{}:{}", op, if nullable { "nullable" } else { "plain" }),
-                input: Sx::tagged(
-                    "vec",
-                    vec![Sx::a(op), Sx::l(pairs), if nullable { Sx::some(Sx::l(present)) } else { Sx::none() }],
-                ),
+                class: format!("vec:{}:{}:{}", op, form, if nullable { "nullable" } else { "plain" }),
+                input: Sx::tagged("vec", items),
             });
         }
         // Combinable<i64>::combine
@@ -357,7 +454,12 @@ impl Suite for C06Kernel {
                     Sx::A(_) => None,
                     Sx::L(v) => Some(v[1].items().iter().map(|b| b.atom() == "true").collect()),
                 };
-                let res = std::panic::catch_unwind(|| real_vec(op, &l, &rr, present.as_ref()));
+                let form = it.get(4).map_or("vv", |f| f.atom());
+                let res = std::panic::catch_unwind(|| match form {
+                    "sv" => real_scalar(op, "sv", l[0], &rr, present.as_ref()),
+                    "vs" => real_scalar(op, "vs", rr[0], &l, present.as_ref()),
+                    _ => real_vec(op, &l, &rr, present.as_ref()),
+                });
                 let is_present = |i: usize| present.as_ref().map_or(true, |p| p.get(i).copied().unwrap_or(false));
                 let (impl_out, oracle, sig) = match res {
                     Ok(Ok(vs)) => {
@@ -383,7 +485,7 @@ impl Suite for C06Kernel {
                         (
                             Sx::a("overflow"),
                             if justified { None } else { Some("Overflow reported although every present row has an exact result".into()) },
-                            format!("mismatch:checked_operator:{}:spurious-overflow", op),
+                            format!("mismatch:checked_operator:{}:spurious-overflow{}", op, if form == "vv" { String::new() } else { format!(":{}", form) }),
                         )
                     }
                     Ok(Err(e)) => (Sx::a("error"), Some(format!("unexpected error {}", e)), "error:checked_operator".into()),
